@@ -109,6 +109,7 @@ def MP_SL_matrix_col(j: int) -> npt.ArrayLike:
 class SingleLayerOperator:
     def __init__(self, mesh, quad_order=12, pw_exact=False, cache_dir=None):
         self.pw_exact = pw_exact
+        self.quad_order = quad_order
         self.gauss_scheme = gauss_quadrature_scheme(23)
         self.gauss_2d = ProductScheme2D(self.gauss_scheme)
         self.log_scheme = log_quadrature_scheme(quad_order, quad_order)
@@ -261,8 +262,11 @@ class SingleLayerOperator:
             return mat
 
         if self.cache_dir is not None:
-            md5 = hashlib.md5((str(self.mesh.gamma_space) + str(elems_test) +
-                               str(elems_trial)).encode()).hexdigest()
+            # The entries depend on the configuration of this operator, too.
+            md5 = hashlib.md5(
+                (str(self.mesh.gamma_space) + str(elems_test) +
+                 str(elems_trial) +
+                 str((self.quad_order, self.pw_exact))).encode()).hexdigest()
             cache_fn = "{}/SL_{}_{}x{}_{}.npy".format(self.cache_dir,
                                                       self.mesh.gamma_space, N,
                                                       M, md5)
